@@ -92,6 +92,13 @@ func (x *bctx) buildV2(kind string) bool {
 				if !x.usedSF[cand.ID] && l != nil && l.SpendableV2(ph, x.median) {
 					e, found = cand.Copy(), true
 					c.Stats["legacy_ephemeral_siafund_spend"]++
+					if !c.NoStaleEphemeralProofs && x.rng.IntN(2) == 0 {
+						// like in-block siacoin parents: a meaningless Merkle proof attached by whoever relays it
+						for k := 1 + x.rng.IntN(4); k > 0; k-- {
+							e.StateElement.MerkleProof = append(e.StateElement.MerkleProof, types.Hash256{0xEF, byte(k), byte(x.rng.IntN(256))})
+						}
+						c.Stats["ephemeral_siafund_parent_with_attached_proof"]++
+					}
 					break
 				}
 			}
